@@ -207,6 +207,7 @@ def run(chk):
            "no is_regular guard or calendar path for the target: a DAILY target is grouped by the constant 365 // f days per period"
            if not guarded else "target regularity is tested before the constant-factor methods", m.loc(d))
     chk.guard(rule_r7, chk)
+    chk.guard(rule_r8, chk)
     from .. import unused as _unused
     chk.guard(_unused.apply, chk, "C12-R91")
     from .. import args as _args
@@ -312,6 +313,93 @@ def rule_r7(chk):
                    f"{g.name}: weights as documented for n=1..6" if bad is None else f"{g.name}({bad[0]}) = {bad[1]} (want {want[key](bad[0])})", m.loc(g), sure=True)
         except (fin.NotFinite, KeyError) as ex:
             chk.undecided("C12-R7", f"series.arip._CHOOSE_AGGREGATION_VECTOR[{key}]", str(ex), m.loc(g))
+
+
+def rule_r8(chk):
+    """arip: the bordered (KKT) system is symmetric in its constraint blocks"""
+    chk.rule("C12-R8", "arip solves the first-order conditions of 'minimise the criterion subject to aggregation and target constraints': the "
+             "matrix is [[F, A'], [A, 0]], so the multiplier column of each constraint is (a non-zero multiple of) the transpose of its constraint row - for "
+             "aggregation constraints both carry the aggregation weights, for targets both are unit vectors (finite evaluation with "
+             "the checker's exact matrix model, every low period, weights sum / mean / first / last and a custom vector); the "
+             "multiplier columns and constraint rows are stacked in the same order; F = K'K with K the rows of the AR criterion", floor=8)
+    m = chk.repo.mod(ARIP)
+    fs = {q: m.func(q) for q in ("_create_multiplier_column", "_create_aggregation_row", "_create_target_column", "_create_target_row", "_create_basic_system_matrices")}
+    for q in fs:
+        chk.saw(m, q)
+    funcs = dict(fin.MATRIX_FUNCS)
+    env = {"float": float}
+    nl, nw = 3, 4
+    for label, vec in (("sum", [1] * nw), ("mean", [Fraction(1, nw)] * nw), ("first", [1] + [0] * (nw - 1)), ("last", [0] * (nw - 1) + [1]), ("custom", [2, 0, 1, 3])):
+        try:
+            bad = None
+            for lp in range(nl):
+                col = fin.run_function(fs["_create_multiplier_column"], dict(zip(params(fs["_create_multiplier_column"]), (lp, nl, nw, vec))), funcs=funcs, env=env)
+                row = fin.run_function(fs["_create_aggregation_row"], dict(zip(params(fs["_create_aggregation_row"]), (lp, nl, nw, vec))), funcs=funcs, env=env)
+                if not (isinstance(col, fin.FinMat) and isinstance(row, fin.FinMat) and _proportional(col, row.T)):
+                    bad = (lp, col, row)
+                    break
+            chk.ob("C12-R8", f"series.arip[multiplier column = (aggregation row)' : {label}]", bad is None,
+                   f"weights {[str(v) for v in vec]}: column of the multiplier equals the transposed constraint row in each of {nl} low periods" if bad is None else
+                   f"weights {[str(v) for v in vec]}, low period {bad[0]}: multiplier column {bad[1].T.rows if isinstance(bad[1], fin.FinMat) else bad[1]} but constraint row "
+                   f"{bad[2].rows if isinstance(bad[2], fin.FinMat) else bad[2]}: the stationarity condition is not that of the constrained problem", m.loc(fs["_create_multiplier_column"]), sure=True)
+        except (fin.NotFinite, TypeError, KeyError) as ex:
+            chk.undecided("C12-R8", f"series.arip[multiplier column = (aggregation row)' : {label}]", f"{type(ex).__name__}: {ex}", m.loc(fs["_create_multiplier_column"]))
+    try:
+        bad = None
+        for hp in range(nl * nw):
+            col = fin.run_function(fs["_create_target_column"], dict(zip(params(fs["_create_target_column"]), (hp, nl * nw))), funcs=funcs, env=env)
+            row = fin.run_function(fs["_create_target_row"], dict(zip(params(fs["_create_target_row"]), (hp, nl * nw))), funcs=funcs, env=env)
+            unit = fin.FinMat([[1 if j == hp else 0 for j in range(nl * nw)]])
+            if not (row == unit and col == unit.T):
+                bad = hp
+                break
+        chk.ob("C12-R8", "series.arip[target column = (target row)' = unit vector]", bad is None, f"{nl * nw} high periods" if bad is None else f"high period {bad}", m.loc(fs["_create_target_row"]), sure=True)
+    except (fin.NotFinite, TypeError, KeyError) as ex:
+        chk.undecided("C12-R8", "series.arip[target column = (target row)' = unit vector]", f"{type(ex).__name__}: {ex}", m.loc(fs["_create_target_row"]))
+    # F = K'K, C = K'c with K[i,i+1] = 1/s[i+1], K[i,i] = -rho/s[i+1], c[i] = const/s[i+1]
+    try:
+        n, rho, const = 5, Fraction(3, 2), Fraction(1, 3)
+        sig = [Fraction(k + 2, 1) for k in range(n)]
+        got = fin.run_function(fs["_create_basic_system_matrices"], dict(zip(params(fs["_create_basic_system_matrices"]), (n, rho, const, sig))),
+                               funcs=dict(funcs, **{"_np.full": lambda shape, v, **kw: fin.FinMat([[v] * shape[1] for _ in range(shape[0])])}), env=env)
+        K = fin.FinMat([[(Fraction(1) / sig[i + 1]) if j == i + 1 else (-rho / sig[i + 1]) if j == i else 0 for j in range(n)] for i in range(n - 1)])
+        c = fin.FinMat([[const / sig[i + 1]] for i in range(n - 1)])
+        ok = isinstance(got, tuple) and len(got) == 2 and got[0] == K.T @ K and got[1] == K.T @ c
+        chk.ob("C12-R8", "series.arip._create_basic_system_matrices", ok,
+               "F = K'K and C = K'c for the criterion sum(((x[t] - rho*x[t-1] - const)/sigma[t])**2) (T = 5, exact fractions)" if ok else f"got {got}", m.loc(fs["_create_basic_system_matrices"]), sure=True)
+    except (fin.NotFinite, TypeError, KeyError, ZeroDivisionError) as ex:
+        chk.undecided("C12-R8", "series.arip._create_basic_system_matrices", f"{type(ex).__name__}: {ex}", m.loc(fs["_create_basic_system_matrices"]))
+    # stacking order: columns (multipliers, targets) and rows (aggregations, targets) in the same order of constraints
+    d = m.func("disaggregate_arip_data")
+    chk.saw(m, "disaggregate_arip_data")
+    hs = [n for n in ast.walk(d) if isinstance(n, ast.Call) and dotted(n.func) == "_np.hstack" and any(isinstance(a, ast.Starred) for t in n.args if isinstance(t, ast.Tuple) for a in t.elts)]
+    vs = [n for n in ast.walk(d) if isinstance(n, ast.Call) and dotted(n.func) == "_np.vstack" and any(isinstance(a, ast.Starred) for t in n.args if isinstance(t, ast.Tuple) for a in t.elts)]
+    if len(hs) == 1 and len(vs) == 1:
+        cols = [unparse(a.value) for a in hs[0].args[0].elts if isinstance(a, ast.Starred)]
+        rows = [unparse(a.value) for a in vs[0].args[0].elts if isinstance(a, ast.Starred)]
+        kind = lambda s_: "aggregation" if ("multiplier" in s_ or "aggregation" in s_) else "target" if "target" in s_ else s_
+        ok = [kind(c_) for c_ in cols] == [kind(r_) for r_ in rows] == ["aggregation", "target"]
+        chk.ob("C12-R8", "series.arip.disaggregate_arip_data[order of constraint blocks]", ok, f"columns {cols}; rows {rows}", m.loc(hs[0]))
+    else:
+        chk.undecided("C12-R8", "series.arip.disaggregate_arip_data[order of constraint blocks]", "stacking not recognised", m.loc(d))
+
+
+def _proportional(a, b):
+    """a == k * b for one non-zero k (a multiplier may be scaled freely)"""
+    if a.shape != b.shape:
+        return False
+    k = None
+    for ra, rb in zip(a.rows, b.rows):
+        for x, y in zip(ra, rb):
+            if (x == 0) != (y == 0):
+                return False
+            if y != 0:
+                r = Fraction(x) / Fraction(y)
+                if k is None:
+                    k = r
+                elif r != k:
+                    return False
+    return k is not None and k != 0
 
 
 def single_ret(f):
